@@ -107,6 +107,19 @@ func main() {
 			}
 		}()
 		f(c)
+		if c.Tier == "thorough" && os.Getenv("ZNCHECK_NO_SELFTEST") == "" {
+			// only meaningful when the unchanged tree has no unlisted violation
+			failing := false
+			for _, o := range c.R.Obls {
+				if o.Status != Holds && o.Status != Known && o.Status != Violated {
+					failing = true
+				}
+			}
+			if !failing {
+				rs := selfTest(c)
+				c.R.selfTestResults = rs
+			}
+		}
 		return c.R.finish(c.Verif, seed())
 	}()
 	os.Exit(code)
